@@ -203,6 +203,41 @@ def pp_retarget_text(sol, T, phases, pt, punch):
     return ("SOLUTION 1\n temp %s\n%s\n%sEND\nUSE solution 1\n%sUSE solution 1\n%s" % (fmt(T), SOLS[sol].rstrip("\n"), punch, first, second))
 
 
+STEP_TEMPS = {"up": [5.0, 25.0, 60.0, 90.0], "down": [90.0, 60.0, 25.0, 5.0]}
+
+
+def pp_steps_points():
+    """(target, moles, restriction kind, temperature direction, incremental) of the multi-step family"""
+    for t in TARGETS:
+        for m in (1e-4, 1.0):
+            for kind in ("d", "p"):
+                for direction in ("up", "down"):
+                    for inc in (True, False):
+                        yield (t, m, kind, direction, inc)
+
+
+def pp_steps_text(sol, phase, pt, punch):
+    t, m, kind, direction, inc = pt
+    return ("SOLUTION 1\n temp 25\n%s\nEQUILIBRIUM_PHASES 1\n %s %s %s %s\nREACTION_TEMPERATURE 1\n %s\nINCREMENTAL_REACTIONS %s\n%sEND\n" % (
+        SOLS[sol].rstrip("\n"), phase, fmt(t), fmt(m), {"d": "dissolve_only", "p": "precipitate_only"}[kind],
+        " ".join(fmt(x) for x in STEP_TEMPS[direction]), "true" if inc else "false", punch))
+
+
+def judge_pp_steps(rows, phase, pt):
+    """Every step is a calculation of its own: with INCREMENTAL_REACTIONS it starts from the previous step's result,
+    otherwise from the defined assemblage."""
+    t, m, kind, direction, inc = pt
+    j = O.RowJudge(stoich())
+    if len(rows) != len(STEP_TEMPS[direction]):
+        raise RuntimeError("expected %d reaction rows, got %d" % (len(STEP_TEMPS[direction]), len(rows)))
+    start = m
+    for row in rows:
+        j.phase(row, phase, t, kind, [start])
+        if inc:
+            start = row.get(O.bname("m_", phase))
+    return j
+
+
 def react_rows(r, n=1):
     rows = r["sel"].get(n)
     if rows is None:
@@ -296,7 +331,15 @@ def case_name(case):
 def run_pp(case):
     phases = case["phases"]
     punch = O.punch_block(1, phases)
-    pts = [tuple(tuple(x) if isinstance(x, list) else x for x in case["point"])] if case.get("point") is not None else pp_points(len(phases), "full-f1" if case["scheme"] == "retarget" else case["scheme"])
+    pts = [tuple(tuple(x) if isinstance(x, list) else x for x in case["point"])] if case.get("point") is not None else ([] if case["scheme"] == "steps" else pp_points(len(phases), "full-f1" if case["scheme"] == "retarget" else case["scheme"]))
+
+    if case["scheme"] == "steps":
+        spts = [tuple(case["point"])] if case.get("point") is not None else pp_steps_points()
+
+        def gen_steps():
+            for pt in spts:
+                yield (list(pt), pp_steps_text(case["sol"], phases[0], pt, punch), (lambda r, pt=pt: judge_pp_steps(react_rows(r), phases[0], pt)), "")
+        return run_points(case, gen_steps())
 
     def gen():
         for pt in pts:
@@ -703,6 +746,12 @@ def pp_cases(tier):
         cs = [{"part": "pp", "sol": s, "T": 25.0, "phases": sub, "scheme": "retarget"} for s in sols for sub in subsets(k)]
         bounds.append(("pp retarget: subsets of size %d (%d) x solutions %s x 25 C: assemblage run with shifted targets, then with (target,moles)^%d x restriction (%s) = %d points each, second run judged" % (
             k, len(subsets(k)), sols, k, F1, len(list(pp_points(k, "full-f1")))), cs))
+    # restricted single phases over four temperature steps, incremental or not (every step judged against its own start)
+    ssols = ["hard", "sea"] if tier == "quick" else SOL_ORDER
+    mins = [p for p in PHASES if p not in GASES]
+    cs = [{"part": "pp", "sol": s, "T": 25.0, "phases": [p], "scheme": "steps"} for s in ssols for p in mins]
+    bounds.append(("pp steps: %d minerals x solutions %s x dissolve_only/precipitate_only x targets x 2 amounts x REACTION_TEMPERATURE 5..90 up/down x INCREMENTAL_REACTIONS true/false = %d points each, 4 rows judged" % (
+        len(mins), ssols, len(list(pp_steps_points()))), cs))
     if tier == "thorough":
         cs = [{"part": "pp", "sol": s, "T": 25.0, "phases": sub, "scheme": "tri"} for s in TRI_SOLS for sub in subsets(3)]
         bounds.append(("pp: subsets of size 3 (%d) x solutions %s x 25 C x targets^3 x 9 amount patterns x restriction (%s) = %d points each" % (
